@@ -213,7 +213,7 @@ def run_tlc(module, cfg_path, scratch, workers=16, env_extra=None, timeout=3600,
         if re.search(r"[Pp]ost-?condition", line) and ("violated" in line or "false" in line.lower()):
             res.postcondition_failed = True
             continue
-        m = re.match(r"^<(\w+) line \d+, col \d+ to line \d+, col \d+ of module \w+>: (\d+):(\d+)", line)
+        m = re.match(r"^<(\w+) line \d+, col \d+ to line \d+, col \d+ of module \w+(?: \([\d ]+\))?>: (\d+):(\d+)", line)
         if m:
             res.coverage[m.group(1)] = res.coverage.get(m.group(1), 0) + int(m.group(3))
     if res.returncode != 0 and res.violated is None and not res.postcondition_failed:
